@@ -175,18 +175,19 @@ def ropsOf : List Stmt → List AssocB
   | .createRop rel sk sc skeys sp tk tc tkeys tp :: rest => ⟨rel, sk, sc, skeys, sp, tk, tc, tkeys, tp⟩ :: ropsOf rest
   | _ :: rest => ropsOf rest
 
-/-- what `define_association` checks, for one CREATE ROP statement against the declared classes -/
+/-- what `define_association` checks, for one CREATE ROP statement against the declared classes (both classes exist, no
+    source key of the form `__x__`, key lists of equal length, every target key an attribute of the target class) -/
 def RopOk (u : UC) (classes : List ClassB) (sk : Name) (skeys : List Name) (tk : Name) (tkeys : List Name) : Prop :=
   (∃ c ∈ classes, sameKind u c.kind sk = true) ∧ (∃ c ∈ classes, sameKind u c.kind tk = true) ∧
-  skeys.length = tkeys.length ∧
+  skeys.any isDunder = false ∧ skeys.length = tkeys.length ∧
   ∀ c ∈ classes, sameKind u c.kind tk = true → ∀ k ∈ tkeys, (c.attrs.map fun a => u.upper a.1).contains (u.upper k) = true
 
 theorem RopOk.map (u : UC) (g : ClassB → ClassB) (hk : ∀ c, (g c).kind = c.kind) (ha : ∀ c, (g c).attrs = c.attrs)
     {classes : List ClassB} {sk tk : Name} {skeys tkeys : List Name} (h : RopOk u classes sk skeys tk tkeys) :
     RopOk u (classes.map g) sk skeys tk tkeys := by
-  obtain ⟨⟨c1, hc1, hk1⟩, ⟨c2, hc2, hk2⟩, hl, hall⟩ := h
+  obtain ⟨⟨c1, hc1, hk1⟩, ⟨c2, hc2, hk2⟩, hpl, hl, hall⟩ := h
   refine ⟨⟨g c1, List.mem_map.mpr ⟨c1, hc1, rfl⟩, by rw [hk]; exact hk1⟩,
-    ⟨g c2, List.mem_map.mpr ⟨c2, hc2, rfl⟩, by rw [hk]; exact hk2⟩, hl, ?_⟩
+    ⟨g c2, List.mem_map.mpr ⟨c2, hc2, rfl⟩, by rw [hk]; exact hk2⟩, hpl, hl, ?_⟩
   intro c hc hs k hkm
   obtain ⟨c0, hc0, rfl⟩ := List.mem_map.mp hc
   rw [ha]; rw [hk] at hs
@@ -206,7 +207,7 @@ theorem popAssocs_ok (u : UC) : ∀ (stmts : List Stmt) (s : BState),
         RopOk u s.classes sk skeys tk tkeys := fun a b c d e f g i j hm => h a b c d e f g i j (by simp [hm])
     cases st with
     | createRop rel sk sc skeys sp tk tc tkeys tp =>
-      obtain ⟨h1, h2, hl, hall⟩ := h rel sk sc skeys sp tk tc tkeys tp (by simp)
+      obtain ⟨h1, h2, hpl, hl, hall⟩ := h rel sk sc skeys sp tk tc tkeys tp (by simp)
       obtain ⟨c1, hf1, _, _⟩ := find?_some_of_mem u s sk h1
       obtain ⟨c2, hf2, hm2, hk2⟩ := find?_some_of_mem u s tk h2
       have hkeys : tkeys.all (fun k => (c2.attrs.map (fun a => u.upper a.1)).contains (u.upper k)) = true := by
@@ -214,7 +215,7 @@ theorem popAssocs_ok (u : UC) : ∀ (stmts : List Stmt) (s : BState),
       have hstep : (s.update u sk (fun c => { c with referential := c.referential ++ skeys })).classes =
           s.classes.map (fun c => assocStep u c (.createRop rel sk sc skeys sp tk tc tkeys tp)) := by
         rw [update_eq_map]; rfl
-      simp only [popAssocs, hf1, hf2, hl, bne_self_eq_false, Bool.false_eq_true, if_false, hkeys, if_true]
+      simp only [popAssocs, hf1, hf2, hpl, hl, bne_self_eq_false, Bool.false_eq_true, if_false, hkeys, if_true]
       rw [ih _ (by
         intro a b c d e f g i j hm
         have := RopOk.map u (fun c => assocStep u c (.createRop rel sk sc skeys sp tk tc tkeys tp))
@@ -337,11 +338,9 @@ theorem popInstances_ok (u : UC) : ∀ (stmts : List Stmt) (s : BState), KindsDi
     and so are the attribute names within each class;
     identifiers (with attributes) and associations name declared classes, key lists of equal length, target keys
     attributes of the target class; every INSERT is positional, into a declared class whose attribute types are core
-    types, with values that can be read for the type of their column; no identifier of the form `__x__` where Python
-    makes it an attribute name -/
+    types, with values that can be read for the type of their column; no attribute name and no source key of the form
+    `__x__` (part of `attrNamesOk` and `RopOk`: `define_class` / `define_association` raise for them) -/
 structure BuildOk (u : UC) (stmts : List Stmt) : Prop where
-  /-- no identifier of the form `__x__` in an attribute position (outside the model: open finding) -/
-  plain : touchesInternals stmts = false
   distinct : KindsDistinct u (newTables stmts)
   attrNames : ∀ c ∈ newTables stmts, attrNamesOk u c.attrs = true
   idents : ∀ kind name attrs, Stmt.createIndex kind name attrs ∈ stmts → attrs ≠ [] →
